@@ -444,10 +444,12 @@ def cmp(op, a, b):
                 r = zbool(a) == zbool(b)
                 return wrap(z3.simplify(r if op == '==' else z3.Not(r)))
     if not (isinstance(a, SV) or _isnum(a)) or not (isinstance(b, SV) or _isnum(b)):
-        if op == '==':
-            return False
-        if op == '!=':
-            return True
+        if op in ('==', '!='):
+            try:
+                same = bool(a == b) if type(a) == type(b) or (a is None or b is None) else False
+            except Exception:
+                same = False
+            return same if op == '==' else not same
         raise PyRaise('TypeError', 'comparison %s between %s and %s' % (op, type(a).__name__, type(b).__name__))
     ta, tb = _arith2(a, b)
     r = {'<': ta < tb, '<=': ta <= tb, '>': ta > tb, '>=': ta >= tb, '==': ta == tb, '!=': ta != tb}[op]
